@@ -8,7 +8,7 @@
    geometry-map encoding, coordinates on the site grid (otherwise the model returns None). *)
 From Coq Require Import ZArith List Bool Lia Permutation Sorted Field.
 From IBL.lib Require Import PyInt.
-From IBL.C08 Require Import Model Adc Proofs Canon.
+From IBL.C08 Require Import Model Adc Proofs Canon Scan ScanProofs.
 Import ListNotations.
 Open Scope Z_scope.
 
@@ -223,6 +223,15 @@ Proof.
 Qed.
 Print Assumptions C08_adc_subset_refuted.
 
+(* ---- codec: the tokeniser of _map_channels_from_meta (regex findall + split + float) inverts the
+   SpikeGLX map printer: any header text without ':' followed by "(s:a:b:f)" entries with
+   components in [0, 10^20) parses back to exactly the entries, in order ---- *)
+Theorem C08_parse_print_map : forall header sites,
+  colon_free header -> Forall valid_site sites ->
+  parse_map (print_map header sites) = Some sites.
+Proof. exact parse_print_map. Qed.
+Print Assumptions C08_parse_print_map.
+
 (* ---- non-vacuity: concrete inputs meeting the hypotheses, with the model's values ---- *)
 Example C08_example_sorted_split :
   geometry NP24 ShankMap [(1, 0, 5, 1); (0, 1, 5, 1); (1, 1, 5, 0); (0, 0, 5, 1)] (Some 1) true
@@ -237,3 +246,10 @@ Proof. vm_compute. reflexivity. Qed.
 
 Example C08_example_offgrid : geometry NP21 GeomMap [(0, 28, 15, 1)] None true = None.
 Proof. vm_compute. reflexivity. Qed.
+
+(* "(4,2,640)(0:1:5:1)(12:0:007:0)" and a malformed text *)
+Example C08_example_parse :
+  parse_map [40;52;44;50;44;54;52;48;41;40;48;58;49;58;53;58;49;41;40;49;50;58;48;58;48;48;55;58;48;41]
+  = Some [(0, 1, 5, 1); (12, 0, 7, 0)] /\
+  parse_map [40;48;58;49;58;58;49;41] = None.
+Proof. vm_compute. split; reflexivity. Qed.
